@@ -7,6 +7,7 @@ CFG = dict(
         "Inst.gen_header_roundtrip: from_raw_bytes (to_raw_bytes h) = h for the regenerated offsets",
         "Inst.gen_magic_first: a written file starts with the magic (detect_version sees v3)",
         "Inst.gen_save_order: create temp < write < rename(temp, path) in both save functions",
+        "Inst.gen_load_unbounded: load_v3 inflates the compressed payload with the unbounded streaming decoder (no size/ratio cap), so the zstd round-trip premise covers everything save can write",
         "Inst.gen_steps_safe: the file-system steps of both save functions are temp-file steps only, leave the temp file complete and end with the one rename (no unlink / direct write of the target)",
     ],
     crate="nvh_c07",
